@@ -6,10 +6,12 @@ import (
 	"testing"
 	"time"
 
+	simplefixgo "github.com/b2broker/simplefix-go"
 	"pgregory.net/rapid"
 
 	"verif/harness/evid"
 	"verif/harness/pbt"
+	"verif/harness/ref"
 	"verif/harness/rig"
 )
 
@@ -17,12 +19,13 @@ import (
 
 type C08Case struct {
 	Script
-	N       int   `json:"n"`        // negotiated interval, seconds
-	Periods int   `json:"periods"`  // horizon in periods
-	LogonAt int64 `json:"logon_at"` // initiator: virtual ns at which the peer's Logon arrives
-	Silence bool  `json:"silence"`  // the peer falls silent once, long enough to be probed
-	N2      int   `json:"n2"`       // acceptor: after the first horizon the peer logs out and on again with this interval (0: no re-logon)
-	Relogon int   `json:"relogon"`  // index of the second Logon step
+	N       int      `json:"n"`                // negotiated interval, seconds
+	Periods int      `json:"periods"`          // horizon in periods
+	LogonAt int64    `json:"logon_at"`         // initiator: virtual ns at which the peer's Logon arrives
+	Silence bool     `json:"silence"`          // the peer falls silent once, long enough to be probed
+	N2      int      `json:"n2"`               // acceptor: after the first horizon the peer logs out and on again with this interval (0: no re-logon)
+	Relogon int      `json:"relogon"`          // index of the second Logon step
+	Refuse  []string `json:"refuse,omitempty"` // application sends that an application outgoing handler (registered before the session's own) refuses: they are not transmitted, so they must not postpone the heartbeat
 }
 
 var stdIntervals = []int{1, 2, 3, 5, 10, 20, 30, 60}
@@ -141,7 +144,11 @@ func genC08(t *rapid.T) *C08Case {
 		}
 		tl.advanceTo(e.at)
 		if e.kind == "send" {
-			tl.steps = append(tl.steps, rig.Step{Op: "send", ID: fmt.Sprintf("app%d", i)})
+			id := fmt.Sprintf("app%d", i)
+			if rapid.IntRange(0, 5).Draw(t, "refused") == 0 {
+				c.Refuse = append(c.Refuse, id)
+			}
+			tl.steps = append(tl.steps, rig.Step{Op: "send", ID: id})
 		} else if e.kind == "resend" {
 			tl.steps = append(tl.steps, rig.Step{Op: "in", In: g.resend(1, rapid.SampledFrom([]int{0, 1, 2}).Draw(t, "resendEnd"))})
 			tl.lastIn = tl.now
@@ -172,12 +179,35 @@ func genC08(t *rapid.T) *C08Case {
 }
 
 func checkC08(c *C08Case, rec *evid.Rec) (vs []pbt.Violation) {
-	tr := rig.RunDirect(outerT, c.Cfg, c.Steps, nil, c.MaxHB)
+	var hooks *rig.Hooks
+	if len(c.Refuse) > 0 {
+		refuse := map[string]bool{}
+		for _, id := range c.Refuse {
+			refuse[id] = true
+		}
+		hooks = &rig.Hooks{BeforeRun: func(h *simplefixgo.DefaultHandler, log *rig.EventLog) {
+			h.HandleOutgoing(simplefixgo.AllMsgTypes, func(msg simplefixgo.SendingMessage) bool {
+				b, err := msg.ToBytes()
+				if err != nil {
+					return true
+				}
+				id, _ := ref.Lookup(b, rig.TagMDReqID)
+				return !refuse[id]
+			})
+		}}
+	}
+	tr := rig.RunDirect(outerT, c.Cfg, c.Steps, hooks, c.MaxHB)
 	if tr.Trouble != "" {
 		return []pbt.Violation{pbt.V("harness", "%s", tr.Trouble)}
 	}
 	if tr.RunPanic != "" {
 		return []pbt.Violation{pbt.V("inbound-panic", "handler.Run panicked: %s", tr.RunPanic)}
+	}
+	refusedSeen := 0
+	for i := range c.Steps {
+		if c.Steps[i].Op == "send" && tr.Steps[i].SendErr != "" {
+			refusedSeen++
+		}
 	}
 	N := time.Duration(c.N) * time.Second
 	// the instant the session became logged on
@@ -250,6 +280,9 @@ func checkC08(c *C08Case, rec *evid.Rec) (vs []pbt.Violation) {
 	}
 	if c.N2 > 0 {
 		rec.Hist("relogon-with-another-interval")
+	}
+	if refusedSeen > 0 {
+		rec.Hist("refused-application-sends")
 	}
 	rec.Hist(fmt.Sprintf("N<=%d", bucket(c.N)))
 	rec.Extra("outbound_messages_judged", int64(len(outs)))
